@@ -1,35 +1,37 @@
 /-
-  D128/Proofs/PowAccLog.lean — property C18 (accuracy of `Pow`): a finer error bound for `Gen.decomposed192.log`.
+  D128/Proofs/PowAccLog.lean — property C18 (accuracy of `Pow`): a finer error bound for `Gen.decomposed192.log`
+  (the artanh series to the 33rd power), assembled from `LogAcc.log_spec`.
 
-  * `F_le_of`        : `Mb ≤ M`, `F ≤ (1/(2M+1))·(1+23/10^57)`, `(1/(2Mb+1))·(1+23/10^57) ≤ Fb` give `F ≤ Fb`
-  * `fine_pos`, `fine_neg` : `errLog ≤ 199/10^39·|ln X| + 45/10^57` for a positive / negative decimal exponent `e0`
-  * `fine_zero`      : `e0 = 0`: `errLog ≤ 156/10^38·|ln X| + 45/10^57`, and `≤ 199/10^39·|ln X| + 45/10^57`
-                       outside the band `1.092 < X < 1.1`
-  * **`log_fine`**   : for every argument `|val x − |ln X|| ≤ 1.56·10^-36·|ln X| + 4.5·10^-56`, and outside the band
-                       `≤ 1.99·10^-37·|ln X| + 4.5·10^-56`   (with `neg ↔ X < 1`, no panic, flag and exponent range)
+  * `tail_rel`       : `0 ≤ F ≤ 1/20`, `F ≤ S` give `2·tailR F ≤ 35/10^47·S`
+  * `fine_pos`, `fine_neg`, `fine_zero` : `errLog ≤ 2/10^46·|ln X| + 45/10^57` by the sign of the decimal exponent `e0`
+                       (only `e0 = 0`, `M = 10`, i.e. `1 ≤ X < 1.1`, needs the relative part for more than the term `16·|e0|`:
+                        there the truncation term is `≈ 1.7·10^-46·ln X` with the exported `F ≤ 1/20`)
+  * **`log_fine`**   : for every argument `|val x − |ln X|| ≤ 2·10^-46·|ln X| + 4.5·10^-56`
+                       (with `neg ↔ X < 1`, no panic, flag and exponent range)
 -/
-import D128.Proofs.PowAccLogBase
+import D128.Proofs.PowAccDefs
+import D128.Proofs.LogAccClose
 set_option autoImplicit false
 set_option maxRecDepth 4096
 set_option linter.unusedVariables false
 namespace PowAcc
 open Gen D192 LogAcc Root
 
-/-- the bound of the quotient for `M ≥ Mb` -/
-theorem F_le_of (M F Mb Fb : ℝ) (hMb0 : 0 < Mb) (hMb : Mb ≤ M)
-    (hFM : F ≤ 1 / (2 * M + 1) * (1 + 23 / 10 ^ 57))
-    (hb : 1 / (2 * Mb + 1) * (1 + 23 / 10 ^ 57) ≤ Fb) : F ≤ Fb := by
-  have h1 : 1 / (2 * M + 1) ≤ 1 / (2 * Mb + 1) :=
-    div_le_div_of_nonneg_left (by norm_num) (by linarith) (by linarith)
-  have h2 : 1 / (2 * M + 1) * (1 + 23 / 10 ^ 57) ≤ 1 / (2 * Mb + 1) * (1 + 23 / 10 ^ 57) :=
-    mul_le_mul_of_nonneg_right h1 (by norm_num)
+/-- the truncation term relative to the series value -/
+theorem tail_rel (F S : ℝ) (h0 : 0 ≤ F) (h1 : F ≤ 1 / 20) (hFS : F ≤ S) : 2 * tailR F ≤ 35 / 10 ^ 47 * S := by
+  have ht := tailR_le F h0 h1
+  have hc : (1 / 20 : ℝ) ^ 34 * 2 / 34 ≤ 35 / 10 ^ 47 := by norm_num
+  have hp : F ^ 34 ≤ (1 / 20) ^ 34 := pow_le_pow_left₀ h0 h1 34
+  have e : 2 * (F ^ 35 / 34) = F ^ 34 * 2 / 34 * F := by ring
+  have h2 : F ^ 34 * 2 / 34 * F ≤ 35 / 10 ^ 47 * S :=
+    mul_le_mul (le_trans (by linarith) hc) hFS h0 (by norm_num)
   linarith
 
 theorem fine_pos (e0 M : ℤ) (v S F X : ℝ)
     (hM0 : 10 ≤ M) (hM1 : M ≤ 99) (hMlo : (M : ℝ) ≤ 10 * v) (hMhi : 10 * v < (M : ℝ) + 1)
-    (hF0 : 0 ≤ F) (hFM : F ≤ 1 / (2 * (M : ℝ) + 1) * (1 + 23 / 10 ^ 57)) (hFS : F ≤ S) (hS2F : S ≤ 2 * F)
+    (hF0 : 0 ≤ F) (hF2M : F ≤ 1 / (2 * (M : ℝ))) (hFS : F ≤ S) (hS2F : S ≤ 101 / 100 * F)
     (hXv : X = v * (10 : ℝ) ^ e0) (hpos0 : 0 < e0) :
-    errLog e0.natAbs (if M = 10 then 0 else 1) S F ≤ 199 / 10 ^ 39 * |Real.log X| + 45 / 10 ^ 57 := by
+    errLog e0.natAbs (if M = 10 then 0 else 1) S F ≤ 2 / 10 ^ 46 * |Real.log X| + 45 / 10 ^ 57 := by
   obtain ⟨hl10a, hl10b⟩ := log10_bounds
   have hMr0 : (10 : ℝ) ≤ (M : ℝ) := by exact_mod_cast hM0
   have hMr1 : (M : ℝ) ≤ 99 := by exact_mod_cast hM1
@@ -38,8 +40,10 @@ theorem fine_pos (e0 M : ℤ) (v S F X : ℝ)
   have hLsplit : Real.log X = Real.log v + (e0 : ℝ) * Real.log 10 := by
     rw [hXv, Real.log_mul hvpos.ne' (zpow_ne_zero _ (by norm_num)), Real.log_zpow]
   have hlv0 : 0 ≤ Real.log v := Real.log_nonneg hv1
-  have hF21 : F ≤ 4762 / 10 ^ 5 := F_le_of (M : ℝ) F 10 _ (by norm_num) hMr0 hFM (by norm_num)
-  have ht := tail_abs F (4762 / 10 ^ 5) (16 / 10 ^ 38) hF0 hF21 (by norm_num) (by norm_num)
+  have hF20 : F ≤ 1 / 20 := by
+    refine le_trans hF2M ?_
+    rw [div_le_div_iff₀ (by linarith) (by norm_num)]; linarith
+  have ht := tail20 F hF0 hF20
   have hK : ((e0.natAbs : ℕ) : ℝ) = |(e0 : ℝ)| := by rw [Nat.cast_natAbs]; push_cast; rfl
   have hm01 : (if M = 10 then (0 : ℝ) else 1) ≤ 1 := by split <;> norm_num
   unfold errLog
@@ -55,9 +59,9 @@ theorem fine_pos (e0 M : ℤ) (v S F X : ℝ)
 
 theorem fine_neg (e0 M : ℤ) (v S F X : ℝ)
     (hM0 : 10 ≤ M) (hM1 : M ≤ 99) (hMlo : (M : ℝ) ≤ 10 * v) (hMhi : 10 * v < (M : ℝ) + 1)
-    (hF0 : 0 ≤ F) (hFM : F ≤ 1 / (2 * (M : ℝ) + 1) * (1 + 23 / 10 ^ 57)) (hFS : F ≤ S) (hS2F : S ≤ 2 * F)
+    (hF0 : 0 ≤ F) (hF2M : F ≤ 1 / (2 * (M : ℝ))) (hFS : F ≤ S) (hS2F : S ≤ 101 / 100 * F)
     (hXv : X = v * (10 : ℝ) ^ e0) (hneg0 : e0 < 0) :
-    errLog e0.natAbs (if M = 10 then 0 else 1) S F ≤ 199 / 10 ^ 39 * |Real.log X| + 45 / 10 ^ 57 := by
+    errLog e0.natAbs (if M = 10 then 0 else 1) S F ≤ 2 / 10 ^ 46 * |Real.log X| + 45 / 10 ^ 57 := by
   obtain ⟨hl10a, hl10b⟩ := log10_bounds
   have hMr0 : (10 : ℝ) ≤ (M : ℝ) := by exact_mod_cast hM0
   have hMr1 : (M : ℝ) ≤ 99 := by exact_mod_cast hM1
@@ -69,8 +73,10 @@ theorem fine_neg (e0 M : ℤ) (v S F X : ℝ)
     rw [hXv, Real.log_mul hvpos.ne' (zpow_ne_zero _ (by norm_num)), Real.log_zpow]
   have hlv0 : 0 ≤ Real.log v := Real.log_nonneg hv1
   have hlv1 : Real.log v ≤ Real.log 10 := Real.log_le_log hvpos hv10.le
-  have hF21 : F ≤ 4762 / 10 ^ 5 := F_le_of (M : ℝ) F 10 _ (by norm_num) hMr0 hFM (by norm_num)
-  have ht := tail_abs F (4762 / 10 ^ 5) (16 / 10 ^ 38) hF0 hF21 (by norm_num) (by norm_num)
+  have hF20 : F ≤ 1 / 20 := by
+    refine le_trans hF2M ?_
+    rw [div_le_div_iff₀ (by linarith) (by norm_num)]; linarith
+  have ht := tail20 F hF0 hF20
   have hK : ((e0.natAbs : ℕ) : ℝ) = |(e0 : ℝ)| := by rw [Nat.cast_natAbs]; push_cast; rfl
   have hm01 : (if M = 10 then (0 : ℝ) else 1) ≤ 1 := by split <;> norm_num
   unfold errLog
@@ -106,46 +112,34 @@ theorem fine_neg (e0 M : ℤ) (v S F X : ℝ)
       have hM11 : (11 : ℝ) ≤ (M : ℝ) := by
         have : 11 ≤ M := by omega
         exact_mod_cast this
-      have hF23 : F ≤ 4348 / 10 ^ 5 := F_le_of (M : ℝ) F 11 _ (by norm_num) hM11 hFM (by norm_num)
+      have hF22 : F ≤ 1 / 22 := by
+        refine le_trans hF2M ?_
+        rw [div_le_div_iff₀ (by linarith) (by norm_num)]; linarith
       by_cases hM99 : M = 99
       · -- the cancellation region: no relative part
-        have hF198 : F ≤ 1 / 198 :=
-          F_le_of (M : ℝ) F 99 _ (by norm_num) (by rw [hM99]; norm_num) hFM (by norm_num)
+        have hF198 : F ≤ 1 / 198 := by
+          refine le_trans hF2M ?_
+          rw [hM99]; norm_num
         have ht198 := tail198 F hF0 hF198
         have hlb : 0 ≤ Real.log (10 / v) := by
           apply Real.log_nonneg
           rw [le_div_iff₀ hvpos]; linarith
-        have hpos : 0 ≤ 199 / 10 ^ 39 * Real.log (10 / v) := by positivity
-        have h3 : (1 : ℝ) / 10 ^ 60 + (16 * 1 + 7 * 1 + 192 * (2 * (1 / 198))) / 10 ^ 57 ≤ 45 / 10 ^ 57 := by norm_num
-        have h4 : (16 * 1 + 7 * 1 + 192 * S) / (10 : ℝ) ^ 57 ≤ (16 * 1 + 7 * 1 + 192 * (2 * (1 / 198))) / 10 ^ 57 := by
-          apply div_le_div_of_nonneg_right _ (by positivity); linarith
+        have hpos : 0 ≤ 2 / 10 ^ 46 * Real.log (10 / v) := by positivity
         linarith
-      · by_cases hM30 : M ≤ 30
-        · have hM30' : (M : ℝ) ≤ 30 := by exact_mod_cast hM30
-          have ht23 := tail_abs F (4348 / 10 ^ 5) (14 / 10 ^ 39) hF0 hF23 (by norm_num) (by norm_num)
-          have hlb := log_ge (10 / v) (69 / 100) (by positivity) (by
-            rw [one_div_div]; linarith)
-          linarith
-        · have hM31 : (31 : ℝ) ≤ (M : ℝ) := by
-            have : 31 ≤ M := by omega
-            exact_mod_cast this
-          have hM98 : (M : ℝ) ≤ 98 := by
-            have : M ≤ 98 := by omega
-            exact_mod_cast this
-          have hF62 : F ≤ 1 / 62 := F_le_of (M : ℝ) F 31 _ (by norm_num) hM31 hFM (by norm_num)
-          have ht62 := tail_abs F (1 / 62) (1 / 10 ^ 49) hF0 hF62 (by norm_num) (by norm_num)
-          have hlb := log_ge (10 / v) (1 / 100) (by positivity) (by
-            rw [one_div_div]; linarith)
-          linarith
+      · have hM98 : (M : ℝ) ≤ 98 := by
+          have : M ≤ 98 := by omega
+          exact_mod_cast this
+        have ht22 := tail22 F hF0 hF22
+        have hlb := log_ge (10 / v) (1 / 100) (by positivity) (by
+          rw [one_div_div]; linarith)
+        linarith
 
 theorem fine_zero (e0 M : ℤ) (v S F X : ℝ)
     (hM0 : 10 ≤ M) (hM1 : M ≤ 99) (hMlo : (M : ℝ) ≤ 10 * v) (hMhi : 10 * v < (M : ℝ) + 1)
-    (hF0 : 0 ≤ F) (hFM : F ≤ 1 / (2 * (M : ℝ) + 1) * (1 + 23 / 10 ^ 57)) (hFS : F ≤ S) (hS2F : S ≤ 2 * F)
-    (hFz : M = 10 → F ≤ (v - 1) / (v + 1) * (1 + 23 / 10 ^ 57))
+    (hF0 : 0 ≤ F) (hF2M : F ≤ 1 / (2 * (M : ℝ))) (hFS : F ≤ S) (hS2F : S ≤ 101 / 100 * F)
+    (hA : M = 10 → e0 = 0 → 199 / 100 * S ≤ Real.log X)
     (hXv : X = v * (10 : ℝ) ^ e0) (hzero : e0 = 0) :
-    errLog e0.natAbs (if M = 10 then 0 else 1) S F ≤ 156 / 10 ^ 38 * |Real.log X| + 45 / 10 ^ 57 ∧
-    (¬ InBand X →
-      errLog e0.natAbs (if M = 10 then 0 else 1) S F ≤ 199 / 10 ^ 39 * |Real.log X| + 45 / 10 ^ 57) := by
+    errLog e0.natAbs (if M = 10 then 0 else 1) S F ≤ 2 / 10 ^ 46 * |Real.log X| + 45 / 10 ^ 57 := by
   have hMr0 : (10 : ℝ) ≤ (M : ℝ) := by exact_mod_cast hM0
   have hMr1 : (M : ℝ) ≤ 99 := by exact_mod_cast hM1
   have hv1 : 1 ≤ v := by linarith
@@ -153,53 +147,48 @@ theorem fine_zero (e0 M : ℤ) (v S F X : ℝ)
   have hlv0 : 0 ≤ Real.log v := Real.log_nonneg hv1
   have hX1 : X = v := by rw [hXv, hzero]; simp
   have hKe : ((e0.natAbs : ℕ) : ℝ) = 0 := by rw [hzero]; simp
+  have hF20 : F ≤ 1 / 20 := by
+    refine le_trans hF2M ?_
+    rw [div_le_div_iff₀ (by linarith) (by norm_num)]; linarith
+  have hS0 : 0 ≤ S := le_trans hF0 hFS
   unfold errLog
-  rw [hX1, abs_of_nonneg hlv0, hKe]
   by_cases hM10 : M = 10
-  · rw [if_pos hM10]
-    have hv : v < 11 / 10 := by rw [hM10] at hMhi; push_cast at hMhi; linarith
-    have hv1p : 0 < v + 1 := by linarith
-    have hz21 : (v - 1) / (v + 1) ≤ 1 / 21 := by
-      rw [div_le_div_iff₀ hv1p (by norm_num)]; linarith
-    have hA := fine_rel v S F (1 / 21) (4762 / 10 ^ 5) (156 / 10 ^ 38) hv1 hF0 (hFz hM10) hz21
-      (by norm_num) (by norm_num) hS2F kappa21
-    refine ⟨by linarith, ?_⟩
-    intro hband
-    have hvle : v ≤ 1092 / 1000 := by
-      by_contra hc
-      exact hband ⟨not_le.mp hc, hv⟩
-    have hzb : (v - 1) / (v + 1) ≤ 92 / 2092 := by
-      rw [div_le_div_iff₀ hv1p (by norm_num)]; linarith
-    have hB := fine_rel v S F (92 / 2092) (43978 / 10 ^ 6) (199 / 10 ^ 39) hv1 hF0 (hFz hM10) hzb
-      (by norm_num) (by norm_num) hS2F kappaBand
+  · have hlb := hA hM10 hzero
+    rw [hX1] at hlb
+    rw [hX1, abs_of_nonneg hlv0, hKe, if_pos hM10]
+    have hts := tail_rel F S hF0 hF20 hFS
+    have e : (16 * 0 + 7 * 0 + 231 * S) / (10 : ℝ) ^ 57 = 231 / 10 ^ 57 * S := by ring
+    have h3 : (35 / 10 ^ 47 + 231 / 10 ^ 57) * S ≤ 2 / 10 ^ 46 * (199 / 100) * S :=
+      mul_le_mul_of_nonneg_right (by norm_num) hS0
+    have h4 : (2 : ℝ) / 10 ^ 46 * (199 / 100 * S) ≤ 2 / 10 ^ 46 * Real.log v :=
+      mul_le_mul_of_nonneg_left hlb (by norm_num)
+    rw [e]
     linarith
-  · rw [if_neg hM10]
+  · rw [hX1, abs_of_nonneg hlv0, hKe, if_neg hM10]
     have hM11 : (11 : ℝ) ≤ (M : ℝ) := by
       have : 11 ≤ M := by omega
       exact_mod_cast this
     have hv : 11 / 10 ≤ v := by linarith
     have hlb := log_ge v (9 / 100) hvpos (by
       rw [le_sub_iff_add_le, ← le_sub_iff_add_le', div_le_iff₀ hvpos]; linarith)
-    have hF23 : F ≤ 4348 / 10 ^ 5 := F_le_of (M : ℝ) F 11 _ (by norm_num) hM11 hFM (by norm_num)
-    have ht23 := tail_abs F (4348 / 10 ^ 5) (14 / 10 ^ 39) hF0 hF23 (by norm_num) (by norm_num)
-    have hmain : 2 * tailR F + (16 * 0 + 7 * 1 + 192 * S) / 10 ^ 57 ≤ 199 / 10 ^ 39 * Real.log v + 45 / 10 ^ 57 := by
-      linarith
-    exact ⟨by linarith, fun _ => hmain⟩
+    have hF22 : F ≤ 1 / 22 := by
+      refine le_trans hF2M ?_
+      rw [div_le_div_iff₀ (by linarith) (by norm_num)]; linarith
+    have ht22 := tail22 F hF0 hF22
+    linarith
 
 /-- **The finer accuracy of the working value of `log`.** For every argument the error is at most
-`1.56·10^-36·|ln X| + 4.5·10^-56`; outside the band `1.092 < X < 1.1` it is at most `1.99·10^-37·|ln X| + 4.5·10^-56`. -/
+`2·10^-46·|ln X| + 4.5·10^-56` (the relative part covers the truncation of the artanh series after the 33rd power, which is
+`≈ 3·10^-47·ln X` for `X` just below `1.1`, and the roundings of `|e0|·ln 10`). -/
 theorem log_fine (d : decomposed192) (hd : d.sig.toNat ≠ 0)
     (he : -16000 ≤ d.exp.toInt ∧ d.exp.toInt ≤ 16000) :
     ∃ (neg : Bool) (x : decomposed192) (t : Int8),
-      Gen.decomposed192.log d = .ok (neg, x, t) ∧ flag3 t ∧ -5500 ≤ x.exp.toInt ∧ x.exp.toInt ≤ 5500 ∧
+      Gen.decomposed192.log d = .ok (neg, x, t) ∧ flag3 t ∧ -5930 ≤ x.exp.toInt ∧ x.exp.toInt ≤ 5500 ∧
       (neg = true ↔ ((val d : ℚ) : ℝ) < 1) ∧
       |((val x : ℚ) : ℝ) - (|Real.log ((val d : ℚ) : ℝ)|)|
-        ≤ 156 / 10 ^ 38 * |Real.log ((val d : ℚ) : ℝ)| + 45 / 10 ^ 57 ∧
-      (¬ InBand ((val d : ℚ) : ℝ) →
-        |((val x : ℚ) : ℝ) - (|Real.log ((val d : ℚ) : ℝ)|)|
-          ≤ 199 / 10 ^ 39 * |Real.log ((val d : ℚ) : ℝ)| + 45 / 10 ^ 57) := by
+        ≤ 2 / 10 ^ 46 * |Real.log ((val d : ℚ) : ℝ)| + 45 / 10 ^ 57 := by
   obtain ⟨neg, x, t, e0, M, v, S, F, hlog, ht, hxe0, hxe1, hXv, he0a, he0b, hM0, hM1, hMlo, hMhi,
-    hF0, hFM, hFS, hS2F, hFz, hneg, herr⟩ := log_spec2 d hd he
+    hF0, hF2M, hFS, hS2F, -, hA, hneg, herr⟩ := log_spec d hd he
   obtain ⟨neg', x', t', hlog', -, -, -, hs1, hs2, -, -⟩ := log_abs_close d hd he
   have hnn : neg' = neg := by
     rw [hlog] at hlog'
@@ -208,26 +197,14 @@ theorem log_fine (d : decomposed192) (hd : d.sig.toNat ≠ 0)
     exact h1.symm
   rw [hnn] at hs1 hs2
   set X : ℝ := ((val d : ℚ) : ℝ) with hXdef
-  have hL0 : 0 ≤ |Real.log X| := abs_nonneg _
-  have hw : ∀ a : ℝ, a ≤ 199 / 10 ^ 39 * |Real.log X| + 45 / 10 ^ 57 →
-      a ≤ 156 / 10 ^ 38 * |Real.log X| + 45 / 10 ^ 57 := by
-    intro a h
-    have : (199 : ℝ) / 10 ^ 39 * |Real.log X| ≤ 156 / 10 ^ 38 * |Real.log X| :=
-      mul_le_mul_of_nonneg_right (by norm_num) hL0
-    linarith
-  have hmain : errLog e0.natAbs (if M = 10 then 0 else 1) S F ≤ 156 / 10 ^ 38 * |Real.log X| + 45 / 10 ^ 57 ∧
-      (¬ InBand X →
-        errLog e0.natAbs (if M = 10 then 0 else 1) S F ≤ 199 / 10 ^ 39 * |Real.log X| + 45 / 10 ^ 57) := by
+  have hmain : errLog e0.natAbs (if M = 10 then 0 else 1) S F ≤ 2 / 10 ^ 46 * |Real.log X| + 45 / 10 ^ 57 := by
     rcases lt_trichotomy e0 0 with hneg0 | hzero | hpos0
-    · have := fine_neg e0 M v S F X hM0 hM1 hMlo hMhi hF0 hFM hFS hS2F hXv hneg0
-      exact ⟨hw _ this, fun _ => this⟩
-    · exact fine_zero e0 M v S F X hM0 hM1 hMlo hMhi hF0 hFM hFS hS2F hFz hXv hzero
-    · have := fine_pos e0 M v S F X hM0 hM1 hMlo hMhi hF0 hFM hFS hS2F hXv hpos0
-      exact ⟨hw _ this, fun _ => this⟩
-  exact ⟨neg, x, t, hlog, ht, hxe0, hxe1, ⟨hs1, hs2⟩, le_trans herr hmain.1,
-    fun hb => le_trans herr (hmain.2 hb)⟩
+    · exact fine_neg e0 M v S F X hM0 hM1 hMlo hMhi hF0 hF2M hFS hS2F hXv hneg0
+    · exact fine_zero e0 M v S F X hM0 hM1 hMlo hMhi hF0 hF2M hFS hS2F hA hXv hzero
+    · exact fine_pos e0 M v S F X hM0 hM1 hMlo hMhi hF0 hF2M hFS hS2F hXv hpos0
+  exact ⟨neg, x, t, hlog, ht, hxe0, hxe1, ⟨hs1, hs2⟩, le_trans herr hmain⟩
 
-/-- the hypotheses are satisfiable: the argument `1.095` (inside the band) and `3·10^-12` -/
+/-- the hypotheses are satisfiable: the arguments `1.095` and `3·10^-12` -/
 example := log_fine ⟨⟨1095, 0, 0⟩, -3⟩ (by decide) (by decide)
 example := log_fine ⟨⟨3, 0, 0⟩, -12⟩ (by decide) (by decide)
 
